@@ -115,6 +115,22 @@ def driver_source(sch, sched=False):
                            % (n_, n_.lower(), n_.lower(), len(st["fields"])))
             src.append("          i++; }")
             src.append('        printf("\\n"); fflush(stdout); _exit(0); } else { int stt; waitpid(pid, &stt, 0); if (!WIFEXITED(stt) || WEXITSTATUS(stt)) printf("S CRASH\\n"); } continue; }')
+    if sched and len([d for d in devs if d != "global"]) >= 2:
+        # X <dev> <time> <dev> <time> ... : the schedulers of SEVERAL devices called in one process, in the given order
+        src.append("    if (tok[0][0] == 'X') { fflush(stdout); pid_t pid = fork(); if (pid == 0) {")
+        for d in devs:
+            if d == "global":
+                continue
+            dl = d.lower()
+            dp = "".join(x.capitalize() for x in dl.split("_"))
+            src.append("        static CanDevice%s xdev_%s; memset(&xdev_%s, 0, sizeof xdev_%s);" % (dp, dl, dl, dl))
+        src.append('        printf("X"); for (int i = 1; i + 1 < n; i += 2) { uint32_t t = (uint32_t)strtoul(tok[i+1], NULL, 10); printf(" T");')
+        for d in devs:
+            if d == "global":
+                continue
+            dl = d.lower()
+            src.append('          if (!strcmp(tok[i], "%s")) can_send_%s_msgs_scheduled(&xdev_%s, t, send_cb);' % (d, dl, dl))
+        src.append('        } printf("\\n"); fflush(stdout); _exit(0); } else { int stt; waitpid(pid, &stt, 0); if (!WIFEXITED(stt) || WEXITSTATUS(stt)) printf("X CRASH\\n"); } continue; }')
     src.append('    printf("? %s\\n", tok[0]); }')
     src.append("  return 0; }")
     return "\n".join(src) + "\n"
